@@ -20,6 +20,7 @@ After every step project() reads the state of the real objects in the shape of t
 """
 import functools
 import inspect
+import weakref
 from collections import Counter
 
 from harness.sim import simcluster
@@ -120,6 +121,53 @@ class RecordingLBP(LoadBalancingPolicy):
         self.child.on_remove(host)
 
 
+class _OrderedSet(set):
+    """A set iterated in insertion order."""
+
+    def __init__(self, it=()):
+        set.__init__(self)
+        self._order = []
+        for x in it:
+            self.add(x)
+
+    def add(self, x):
+        if x not in self:
+            set.add(self, x)
+            self._order.append(x)
+
+    def discard(self, x):
+        if x in self:
+            set.discard(self, x)
+            self._order.remove(x)
+
+    def __iter__(self):
+        return iter(list(self._order))
+
+
+class _YieldingWeakSet(weakref.WeakSet):
+    """cluster.sessions with a DetSched yield point where a logical thread starts iterating it."""
+
+    def __iter__(self):
+        if DetSched.current is not None:
+            DetSched.current.yield_point("iter:sessions")
+        return weakref.WeakSet.__iter__(self)
+
+
+class _DetSession(ccluster.Session):
+    """Session.__init__ ends with `any(f.result() for f in self._initial_connect_futures)` over a set: with a
+    queueing executor the scan blocks when it meets a future that has not run yet.  Iterating in submission order
+    (the contact point's pool first, which the constructor has just waited for) keeps the constructor from
+    depending on the hash order of Future objects; nothing else changes."""
+
+    @property
+    def _initial_connect_futures(self):
+        return self.__dict__["_icf"]
+
+    @_initial_connect_futures.setter
+    def _initial_connect_futures(self, value):
+        self.__dict__["_icf"] = _OrderedSet(value)
+
+
 class HostsHarness:
     VARS = ("known", "removed", "up", "handling", "recon", "pools", "grp", "exec", "sched", "lbpLive", "flags",
             "ctl", "ctlPend", "req", "emL", "emP", "nopen")
@@ -138,10 +186,18 @@ class HostsHarness:
         self.lbp = RecordingLBP(self.ignored)
         self.listener = RecordingListener()
         profile = ExecutionProfile(load_balancing_policy=self.lbp, request_timeout=10.0)
+        # The graph profiles the Cluster would add by itself wrap the *default* policy object, which then hears every
+        # notification once per profile; give them policies of their own so that self.lbp is one profile's policy.
+        profiles = {EXEC_PROFILE_DEFAULT: profile}
+        for key, cls in ((ccluster.EXEC_PROFILE_GRAPH_DEFAULT, ccluster.GraphExecutionProfile),
+                         (ccluster.EXEC_PROFILE_GRAPH_SYSTEM_DEFAULT, ccluster.GraphExecutionProfile),
+                         (ccluster.EXEC_PROFILE_GRAPH_ANALYTICS_DEFAULT, ccluster.GraphAnalyticsExecutionProfile)):
+            profiles[key] = cls(load_balancing_policy=RecordingLBP(self.ignored))
         self.cluster = make_cluster(w, [addr_of(CTL)], inline=False,
-                                    execution_profiles={EXEC_PROFILE_DEFAULT: profile},
+                                    execution_profiles=profiles,
                                     reconnection_policy=ConstantReconnectionPolicy(1.0, max_attempts=None))
         self.cluster.register_listener(self.listener)
+        ccluster.Session = _DetSession
         self.sessions = {}
         for s in self.sess_ids:
             self.sessions[s] = self.cluster.connect()
@@ -153,14 +209,14 @@ class HostsHarness:
         # logical threads: Cluster.shutdown in phases, ControlConnection._reconnect in two halves
         self.ds = DetSched()
         self.cc._lock = DRLock("cc")
-        src, first = inspect.getsourcelines(ccluster.Cluster.shutdown)
-        self._line_sessions = self._line_executor = None
-        for i, line in enumerate(src):
-            if self._line_sessions is None and "for session in" in line:
-                self._line_sessions = first + i
-            if self._line_executor is None and "executor.shutdown" in line:
-                self._line_executor = first + i
-        self.ds.trace_lines(ccluster.Cluster.shutdown)
+        # yield points of Cluster.shutdown: where it starts iterating the sessions, where it shuts the executor
+        self.cluster.sessions = _YieldingWeakSet(self.cluster.sessions)
+        ex_shutdown = self.ex.shutdown
+
+        def shutdown_with_yield(*a, **k):
+            self.ds.yield_point("executor.shutdown")
+            return ex_shutdown(*a, **k)
+        self.ex.shutdown = shutdown_with_yield
         self.shut_thread = None
         self.cc_threads = []          # parked ControlConnection._reconnect threads
         self._nthreads = 0
@@ -364,26 +420,31 @@ class HostsHarness:
         c.socket_error()
         self.cc.return_connection(c)          # ConnectionHeartbeat.run: owner.return_connection(connection)
 
-    def _shut_step(self, stop_line):
-        """Advance the Cluster.shutdown thread to just before `stop_line` (None: to its end)."""
+    def _shut_step(self, stops):
+        """Advance the Cluster.shutdown thread to the first of the yield points `stops` (empty: to its end)."""
         if self.shut_thread is None:
             self.shut_thread = self._spawn("SD", self.cluster.shutdown)
+            self.shut_at = "start"
         th = self.ds.threads[self.shut_thread]
         if th.done:
             return
-        if stop_line is None:
+        if not stops:
             self.ds.finish(self.shut_thread)
-        else:
-            self.ds.run_until(self.shut_thread, lambda lab: lab == "line:shutdown:%d" % stop_line)
+            self.shut_at = "end"
+        elif self.shut_at not in stops:
+            self.shut_at = self.ds.run_until(self.shut_thread, lambda lab: lab in stops)
 
     def act_ShutdownA(self, act):
-        self._shut_step(self._line_sessions)
+        self._shut_step(("iter:sessions", "executor.shutdown"))
 
     def act_ShutdownS(self, act):
-        self._shut_step(self._line_executor)
+        if self.shut_thread is not None and self.shut_at == "executor.shutdown":
+            return                        # the sessions loop never showed up: nothing between the two points
+        self.shut_at = "passed"
+        self._shut_step(("executor.shutdown",))
 
     def act_ShutdownE(self, act):
-        self._shut_step(None)
+        self._shut_step(())
 
     def act_Request(self, act):
         s = act["s"]
@@ -521,7 +582,7 @@ class HostsHarness:
             if self.shut_thread is None:
                 self.cluster.shutdown()
             else:
-                self._shut_step(None)
+                self._shut_step(())
         except Exception:
             pass
         for th in self.cc_threads:
